@@ -111,6 +111,7 @@ def eng_multi(pid, tier, wd, known, replay=None):
         rp = replay["input"]["prog"]
         rp["kinds"] = {int(k): v for k, v in (rp.get("kinds") or {}).items()}
         rp["extra_fields"] = {int(k): v for k, v in (rp.get("extra_fields") or {}).items()}
+        rp["extra_impl"] = {int(k): v for k, v in (rp.get("extra_impl") or {}).items()}
         progs, rseed = [rp], replay["input"].get("render_seed", 0)
     else:
         want_n = 90 if tier == "quick" else 900
